@@ -70,6 +70,11 @@ func runEpochProp(r *Run, prop string) error {
 		}
 	}
 	cf.Close("epoch_mismatches")
+	if prop == "C03" {
+		for i := 0; i < r.N(20, 300); i++ {
+			c03ReadPopulation(r)
+		}
+	}
 	if prop == "C02" {
 		// randomly constructed populations (recorded finding: single-point crossover of unrelated genomes)
 		for i := 0; i < r.N(12, 200); i++ {
